@@ -16,9 +16,9 @@ CLAIMED = {
          "Trusted: TLC, the JPEG writer (gen/jpeg.go), the jpeg hooks. Well-formed streams only (the property's domain); the Exif callback consumes its declared length.",
          "DESIGN.md section 4 C10"),
 
- "C03": ("TLA+ spec Exif (forward-only IFD reader: sorted pending list, position bookkeeping, three hand-off variants) model-checked by TLC; every terminal state (logical record x forward layout x padding x IFD0 offset x variant, plus pending-list pressure 80-85 tags) concretised to TIFF bytes in both byte orders with seeded in-range values and replayed on Decode/DecodeTiff/Parse/ScanTiffHeader+DecodeTiff/DecodeJPEG/DecodeIfd; reported fields compared with the record the specification says is reported",
+ "C03": ("TLA+ spec Exif (forward-only IFD reader: sorted pending list, position bookkeeping, three hand-off variants) model-checked by TLC; every terminal state (logical record x forward layout x padding x IFD0 offset x variant, plus pending-list pressure 80-85 tags) concretised to TIFF bytes in both byte orders with seeded in-range values and replayed on Decode/DecodeTiff/Parse/ScanTiffHeader+DecodeTiff/DecodeJPEG/DecodeIfd; reported fields compared with the record the specification says is reported; hook traces of the IFD reader (begin/hdr/ins/drop/nextq/loop/val/end) validated by the closed trace acceptor Trace_Exif, which re-uses the specification's own actions and evaluates Sorted/Forward/NoStaleIdx at every event",
          "TLC decides Sorted/Forward/NoStaleIdx/PosInv/NoDropWF/Exact/DropsOnlyFull/Progress for every record of up to MaxPick entries over one representative per encoding class and directory, in every forward block order; the concretiser binds classes to real tags (all supported fields over seeds) and the real decoders must report exactly the expected record (exact for integers/strings/timestamps incl. sub-seconds and zone, float32/float64 precision for rationals).",
-         "Trusted: TLC, the TIFF writer and value binding (gen/tiff.go, written from TIFF 6.0/Exif 2.31), the comparison code. Records larger than MaxPick (2 quick, 3 thorough) only with foreign filler; values > 1000 bytes, shared value blocks and reverse layouts are outside the domain. No hook trace for exif2 yet (binding is by replay of generated cases).",
+         "Trusted: TLC, the TIFF writer and value binding (gen/tiff.go, written from TIFF 6.0/Exif 2.31), the comparison code. Records larger than MaxPick (2 quick, 3 thorough) only with foreign filler; values > 1000 bytes, shared value blocks and reverse layouts are outside the domain. The documented only-if-the-other-field-is-empty rules (CameraOwnerName/Artist, BodySerialNumber/CameraSerialNumber) are modelled by stream order; a record carrying both serial-number tags leaves CameraSerial undetermined.",
          "DESIGN.md section 4 C03"),
  "C06": ("TLA+ spec Exif (hand-off variants tiff/jpeg/ifd with PosInv) model-checked by TLC; each generated payload embedded UNCHANGED by independent container writers in TIFF, JPEG APP1, PNG eXIf, CR3 CMT1 (and split CMT1/CMT2/CMT4), HEIF with three levels of surrounding content (incl. 64-bit box sizes) and replayed on every decode entry point; results compared with the specified record, pairwise with the bare TIFF, and image type with the container",
          "For every TLC-generated (record, forward layout) in both byte orders: fields(decode(c(p))) equals the specified record and equals fields(decode(TIFF(p))) for c in {JPEG, PNG, CR3, CR3-split, HEIF} and entry points Decode, DecodeJPEG, DecodeTiff, DecodePng, DecodeCR3, DecodeHeif, exif2.Parse, isobmff.Reader+DecodeIfd; ImageType is the container's.",
